@@ -332,6 +332,10 @@ def _pre(idx):
     return True
 
 
+# argument space of the engine cross-validation (vlib/concrete_worker.py)
+CC = {nm: [[0, len(SPEC["dom"].get(k, [0]))] for k in VARS] for nm in ("cond", "kf_none_text_order")}
+
+
 def build_notes(spec, idx):
     val = {k: spec["dom"][k][i] for k, i in zip(VARS, idx) if k in spec["dom"]}
     notes = []
